@@ -225,7 +225,7 @@ static void run_C10(const Args &a, long cs) {
 	Rng r(a.seed, "C10", cs);
 	Problem p = gen_problem(r, 3, a.tier == "thorough" ? 400 : 150, true);
 	uint32_t monodim = (uint32_t)r.below(p.nd);
-	int ykind = (int)r.below(6); // 0 noisy increasing, 1 decreasing, 2 oscillating, 3 constant, 4 gaussian noise, 5 generated from a monotone spline (constraint inactive)
+	int ykind = (int)r.below(10); // 6 flat zero then rise, 7 the same with a 1e-10 downward drift/ripple, 8 all zero, 9 tiny magnitudes;  0 noisy increasing, 1 decreasing, 2 oscillating, 3 constant, 4 gaussian noise, 5 generated from a monotone spline (constraint inactive)
 	std::vector<float> gen_coef;
 	if (ykind == 5 && p.ntot > 120) ykind = 0;
 	if (ykind == 5) {
@@ -240,11 +240,20 @@ static void run_C10(const Args &a, long cs) {
 		fill_data(r, p, 3); // overwritten below
 		for (size_t k = 0; k < p.idx.size(); k++) {
 			double x = p.co[monodim][p.idx[k][monodim]], v;
-			switch (ykind) { case 0: v = 0.5 * x + 0.3 * r.normal() + 3; break; case 1: v = 5 - x + 0.1 * r.normal(); break; case 2: v = 2 + std::sin(3 * x) + 0.1 * r.normal(); break; case 3: v = 1.25; break; default: v = r.normal(); }
+			const auto &km = p.kn[monodim]; double xm = km[km.size() / 2], span = km.back() - km[0];
+			switch (ykind) {
+			case 0: v = 0.5 * x + 0.3 * r.normal() + 3; break; case 1: v = 5 - x + 0.1 * r.normal(); break; case 2: v = 2 + std::sin(3 * x) + 0.1 * r.normal(); break; case 3: v = 1.25; break;
+			case 6: v = x < xm ? 0.0 : std::pow(x - xm, (double)p.ord[monodim]); break; // truncated power with the kink on a knot: exactly representable
+			case 7: v = (x < xm ? 0.0 : std::pow(x - xm, (double)p.ord[monodim])) - 2e-10 * (x - km[0]) / span + 1e-11 * std::sin(40 * x); break;
+			case 8: v = 0.0; break;
+			case 9: v = 1e-20 * (x - km[0]) + 1e-22 * r.normal(); break;
+			default: v = r.normal(); }
+			if (ykind >= 6) p.w[k] = 1.0;
 			p.y[k] = v;
 		}
 	}
-	static const char *yn[] = {"noisy-increasing", "decreasing", "oscillating", "constant", "gaussian-noise", "from-monotone-spline"};
+	static const char *yn[] = {"noisy-increasing", "decreasing", "oscillating", "constant", "gaussian-noise", "from-monotone-spline", "zero-then-rise", "zero-then-rise+1e-10-drift", "all-zero", "tiny-magnitude"};
+	if (ykind >= 6 && ykind <= 7) for (auto &l : p.lam) l = r.coin(0.7) ? 0.0 : 1e-12;
 	p.kind += std::string("/") + yn[ykind];
 	count("problems"); count("ndim:" + std::to_string(p.nd)); count(std::string("data:") + yn[ykind]); count("monodim:" + std::to_string(monodim)); count("order-along-monodim:" + std::to_string(p.ord[monodim]));
 	std::vector<double> lam = p.lam; std::vector<uint32_t> por = p.por; if (p.scalar_args) { lam.resize(1); por.resize(1); }
